@@ -32,6 +32,7 @@ from pynguin.utils import randomness
 from pynguin.utils.orderedset import OrderedSet
 
 NT = 5  # test chromosome slots of a recorded world
+NT_X = 8  # ... of a world of the two-suite family (modes PX*: two suites of two tests, a spare test)
 NS = 2  # suite slots
 SUT_MODULE = "harness.adapters.cache_sut"
 
@@ -198,7 +199,8 @@ DEAD_S = {"al": False, "mem": [], "chg": False, "ff": [], "cf": [], "fk": [], "i
 
 
 class World:
-    def __init__(self) -> None:
+    def __init__(self, nt: int = NT) -> None:
+        self.nt = nt
         self.tests: dict[int, tcc.TestCaseChromosome] = {}
         self.suites: dict[int, tsc.TestSuiteChromosome] = {}
         self.codes: dict[tuple, int] = {}
@@ -246,7 +248,7 @@ class World:
         return 0
 
     def free_t(self) -> list[int]:
-        return [i for i in range(1, NT + 1) if i not in self.tests]
+        return [i for i in range(1, self.nt + 1) if i not in self.tests]
 
     def free_s(self) -> list[int]:
         return [i for i in range(1, NS + 1) if i not in self.suites]
@@ -282,7 +284,7 @@ class World:
                 "ck": sorted(f.name for f in cc._coverage_cache)}
 
     def project(self) -> dict:
-        return {"t": [self.trec(i) for i in range(1, NT + 1)],
+        return {"t": [self.trec(i) for i in range(1, self.nt + 1)],
                 "s": [self.srec(i) for i in range(1, NS + 1)]}
 
     # bookkeeping after a call: removed members die, new members get the smallest slots that
@@ -341,7 +343,8 @@ def build(ip: dict, seed: int) -> World:
     """The initial world of Cache.InitWorld(sut1, regF, regC) on real objects."""
     global CUR
     e = env()
-    w = World()
+    two = str(ip.get("mode", "")).startswith("PX")
+    w = World(NT_X if two else NT)
     CUR = w
     randomness.RNG.seed(seed)
     t1 = tcc.TestCaseChromosome(_sut_test(w) if ip["sut1"] else _prim_test(1), e.factory)
@@ -351,7 +354,29 @@ def build(ip: dict, seed: int) -> World:
     for n in (("g1",) if ip["regC"] else ()):
         t1.add_coverage_function(e.tfun[n])
     w.tests[1] = t1
-    if ip.get("ns", 1) >= 1:
+    if two:
+        # Cache.InitWorldX: two live suites <<2, 3>> and <<4, 5>> of distinct factory tests
+        slot = 2
+        for sid in (1, 2):
+            s = tsc.TestSuiteChromosome(e.chrom_factory)
+            for _ in range(2):
+                for _ in range(400):
+                    t = e.chrom_factory.get_chromosome()
+                    if e.factory.has_call_on_sut(t.test_case) and w.content(t.test_case) not in w.codes:
+                        break
+                else:
+                    raise RuntimeError("factory gives no further test with a call on the SUT")
+                w.version(t.test_case)
+                s.add_test_case_chromosome(t)
+                w.tests[slot] = t
+                t._verif_owned = True
+                slot += 1
+            for n in ("f1", "f2"):
+                s.add_fitness_function(e.sfun[n])
+            s.add_coverage_function(e.sfun["g1"])
+            w.suites[sid] = s
+        e.chrom_factory.log.clear()
+    elif ip.get("ns", 1) >= 1:
         for _ in range(200):
             t2 = e.chrom_factory.get_chromosome()
             if e.factory.has_call_on_sut(t2.test_case) and w.content(t2.test_case) not in w.codes:
@@ -565,7 +590,7 @@ def replay(beh: dict, seed: int = 0) -> dict:
             end = f"error:{op}:{type(ex).__name__}"
             break
         post = w.project()
-        ev["tp"] = [{"id": i + 1, "r": post["t"][i]} for i in range(NT) if post["t"][i] != prev["t"][i]]
+        ev["tp"] = [{"id": i + 1, "r": post["t"][i]} for i in range(w.nt) if post["t"][i] != prev["t"][i]]
         ev["sp"] = [{"id": i + 1, "r": post["s"][i]} for i in range(NS) if post["s"][i] != prev["s"][i]]
         prev = post
         events.append(ev)
@@ -574,6 +599,6 @@ def replay(beh: dict, seed: int = 0) -> dict:
 
 def compact(w0: dict) -> dict:
     """initial world for the trace spec: live chromosomes only."""
-    return {"nt": NT, "ns": NS,
+    return {"nt": len(w0["t"]), "ns": NS,
             "t": [{"id": i + 1, "r": r} for i, r in enumerate(w0["t"]) if r["al"]],
             "s": [{"id": i + 1, "r": r} for i, r in enumerate(w0["s"]) if r["al"]]}
